@@ -6,12 +6,23 @@ Local Open Scope Z_scope.
 
 (* STATUS.  The full statement - from every well-formed world, under a fair fault-free schedule, a converged world is
    reached within a bound and further cycles change nothing - is a liveness property of the composition of the cycle,
-   the sidecars, the scrapes and the StatefulSet (Model/World.v).  It is NOT proved as one theorem here.  Proved, for
-   every input and every iteration order, are its one-cycle ingredients below and its second half - "further cycles
-   then change nothing": a settled placement is a fixpoint of the cycle (C03_settled_is_fixpoint, for the default
-   max-idle-time 0; with an idle time-out the coordinator keeps consolidating shards, which is C07's subject).  The
-   composition "converges within a bound" is validated in lock step against the real closed loop (engine `loop`),
-   whose end states are checked for convergence and stability. *)
+   the sidecars, the scrapes and the StatefulSet (Model/World.v).  It is NOT proved as one theorem here.  What is proved,
+   for every input and every iteration order, is each step of the argument:
+     (1) nothing is ever lost on the way: a discovered target that some sidecar holds is held after every step of every
+         history, with or without faults (C05_no_gap_history / C06_no_target_lost_by_faults), and every sidecar stays well
+         formed (C06_invariant_kept_by_faulty_cycle);
+     (2) a round of three scrapes brings every counter to at least three (C03_scrape_round_counts); counters are only reset
+         when a move begins (C10_kept_target);
+     (3) the cleaning step: with all counters at three, one cycle's garbage collection and recovery pass leave every held
+         target on exactly one in-sync shard in normal state - duplicates on any number of shards, pending transfers with
+         or without partner (C03_one_normal_copy_after_cleaning, C05_handover_completes and the C06 theorems);
+     (4) an eligible target that is held nowhere is placed, or the replica grows (C03_place_or_grow, below);
+     (5) a settled placement is a fixpoint of the cycle and of the closed loop (C03_settled_is_fixpoint,
+         C03_settled_world_unchanged).
+   Not proved is the glue that turns (1)-(5) into a bound: that relief (shards above a threshold) and consolidation
+   (idle time-out) stop starting new moves - which depends on the sizes of the workload, the "enough allowed shards" of
+   the statement - and the arithmetic of room after a scale-up.  That composition is validated in lock step against the
+   real closed loop (engine `loop`), whose end states are checked for convergence and stability. *)
 
 (* "Whenever all shards are in sync and an eligible unscraped target cannot be placed, the requested shard count
    exceeds the current one": one cycle of the model, any schedule *)
